@@ -21,6 +21,7 @@ def main():
     ck = Check(prop, tier, seed)
     try:
         mod.run(ck)
+        scoped_rules(ck, prop)
     except facts.CheckError as e:
         print(f'CHECK-ERROR: {e}')
         return 2
@@ -44,6 +45,17 @@ def main():
     return rc
 
 
+def scoped_rules(ck, prop):
+    """rules that every property with a file scope shares: operation profile (N1, unless the property's own module ran it) and narrowing profile (N2)"""
+    from .props import c10
+    if prop in c10.OPS_SCOPES and ck.config in c10.OPS_CONFIGS:
+        w = ck.world()
+        c10.eval_ops(ck, w, prop, f'{prop}.N1')
+        c10.eval_restrict(ck, w, prop, f'{prop}.N2')
+    elif prop in ('C10', 'C11') and ck.config in ('default', 'devcurves'):
+        c10.eval_restrict(ck, ck.world(), prop, f'{prop}.N2')
+
+
 # feature configurations re-analysed by the thorough tier (facts.CONFIGS): the rules are evaluated again on the program the other cfg selects
 THOROUGH_CONFIGS = {p: ['truncated'] for p in ('C01', 'C02', 'C03', 'C04', 'C05', 'C06', 'C07', 'C08', 'C09', 'C14', 'C15', 'C16', 'C17', 'C18', 'C19', 'C20')}
 THOROUGH_CONFIGS.update({'C10': ['devcurves'], 'C11': ['devcurves']})
@@ -56,6 +68,7 @@ def thorough_extras(ck, mod, prop, seed):
         sub = Check(prop, 'thorough', seed, config=cfg)
         try:
             mod.run(sub)
+            scoped_rules(sub, prop)
         except facts.CheckError as e:
             print(f'CHECK-ERROR: {e}')
             return 2
